@@ -303,53 +303,57 @@ def chunks(xs, n):
 
 
 def build_cases(ctx, sw, fns):
-    """bounded stratum (must be completely clean) and huge stratum (only the known class tolerated)"""
+    """bounded stratum (must be completely clean) and huge stratum (only the known class tolerated).
+    Few, large cases: every case is one fork of the harness."""
     cases = []
     nb = len(IDX_BI)
     quick = ctx.quick()
     hlimit = 500 if quick else 1500
-    budget = 3 if quick else None
     for fn in fns:
-        # 0 and 1 argument: everything
-        cases.append(sw.case(fn, tuples=[[]] + [[i] for i in IDX_BI]))
-        cases.append(sw.case(fn, tuples=[[i] for i in IDX_H], limit_ms=hlimit))
-        # 2 arguments: bounded exhaustive
+        # bounded: 0 and 1 argument: everything; 2 arguments: exhaustive grid; 3 arguments: sampled (quick) / exhaustive
+        small = [[]] + [[i] for i in IDX_BI]
         cases.append(sw.case(fn, grid=dict(vals=IDX_BI, arity=2, start=0, end=nb * nb)))
         if quick:
             tri = [[ctx.rng.choice(IDX_BI) for _ in range(3)] for _ in range(300)]
-            cases.append(sw.case(fn, tuples=tri))
-            h2 = huge_tuples(2, ctx.rng, 120)
-            h3 = huge_tuples(3, ctx.rng, 40)
+            cases.append(sw.case(fn, tuples=small + tri))
+            huge = [[i] for i in IDX_H] + huge_tuples(2, ctx.rng, 120) + huge_tuples(3, ctx.rng, 40)
+            # quick tier: at most 10 calls per function may hang / bomb; the rest of its huge tuples are skipped (counted)
+            cases.append(sw.case(fn, tuples=huge, limit_ms=hlimit, budget=10))
         else:
+            cases.append(sw.case(fn, tuples=small))
             total = nb ** 3
             step = 12000
             for a in range(0, total, step):
                 cases.append(sw.case(fn, grid=dict(vals=IDX_BI, arity=3, start=a, end=min(total, a + step))))
-            h2 = huge_tuples(2)
-            h3 = huge_tuples(3, ctx.rng, 3000)
-        for ch in chunks(h2 + h3, 20):
-            cases.append(sw.case(fn, tuples=ch, limit_ms=hlimit, budget=budget))
+            huge = [[i] for i in IDX_H] + huge_tuples(2) + huge_tuples(3, ctx.rng, 3000)
+            for ch in chunks(huge, 400):
+                cases.append(sw.case(fn, tuples=ch, limit_ms=hlimit))
     ctx.rng.shuffle(cases)
     return cases
 
 
-def inf_probe_cases(sw, fns):
+INF_PARTNERS_QUICK = ["null", "0", "2", "(0-3)", "65536", "1.5", '"ab"', "[1,2,3]", "{}", "(1 to 3)", "(\\x -> x)", "(+)"]
+
+
+def inf_probe_cases(ctx, sw, fns):
     """1..2 arguments with the fuel-burning infinite stream, per-call detail"""
+    partners = [SRC.index(x) for x in INF_PARTNERS_QUICK] if ctx.quick() else IDX_B
     cases = []
     for fn in fns:
-        ts = [[IDX_INF]] + [[IDX_INF, i] for i in IDX_BI] + [[i, IDX_INF] for i in IDX_B]
+        ts = [[IDX_INF], [IDX_INF, IDX_INF]] + [[IDX_INF, i] for i in partners] + [[i, IDX_INF] for i in partners]
         cases.append(sw.case(fn, tuples=ts, detail=True))
     return cases
 
 
-def native_inf_cases(sw, notconsumed):
+def native_inf_cases(ctx, sw, notconsumed):
     """second pass: the native infinite streams (iota(0), repeat(1), cycle([1,2])), only in calls where the
     fuel-burning infinite stream was not consumed (the call did not end in the fuel error or a failure)"""
     cases = []
     for fn, ts in sorted(notconsumed.items()):
         tuples = []
         for t in sorted(ts):
-            for nat in IDX_NAT:
+            nats = IDX_NAT if (len(t) == 1 or not ctx.quick()) else IDX_NAT[:1]
+            for nat in nats:
                 tuples.append([nat if i == IDX_INF else i for i in t])
         # at most two calls per function may fail to return (then the probe misjudged: the native stream is consumed)
         cases.append(sw.case(fn, tuples=tuples, limit_ms=300, budget=2))
@@ -391,9 +395,9 @@ def run_sweep(ctx):
             if r["status"] == "ok" or (r["status"].startswith("err:") and r["status"] != "err:fuel"):
                 notconsumed.setdefault(c["fn"], set()).add(tuple(r["t"]))
     sw.on_detail = on_detail
-    sw.run(inf_probe_cases(sw, fns))
+    sw.run(inf_probe_cases(ctx, sw, fns))
     sw.on_detail = None
-    ncases = native_inf_cases(sw, notconsumed)
+    ncases = native_inf_cases(ctx, sw, notconsumed)
     sw.run(ncases)
     t_all = time.time() - t0
 
@@ -438,6 +442,452 @@ def report_sweep(ctx, S):
             "same_site_calls": [render_call(g["fn"], g["t"]) for g in same[:10]], "same_site_count": len(same)}, found=True)
 
 
+# ----------------------------------------------------------------------------- fault injection
+# Programs over the vocabulary of Lang/Contain.v. AST (tuples):
+#   val  : None | int | list          expr : ("c", val) | ("v", n) | ("b", op, a, b) | ("i", a, i)
+#   stmt : ("skip",) ("expr", e) ("asg", x, [path], e) ("op", x, [path], op, e) ("seq", a, b) ("if", c, a, b)
+#          ("while", c, body) ("try", body, c, handler) ("throw", e) ("break", n) ("cont", n) ("ret", e)
+import re
+
+INIT = {0: 5, 1: -3, 2: [1, 2, 3], 3: [[1, 2], [3]], 4: None, 6: 0, 7: 0, 8: 100, 10: 0, 11: 9}   # x5, x9: not declared
+NVARS = 12
+MARK = 6
+OPSYM = {"add": "+", "sub": "-", "mul": "*", "fdiv": "//", "cat": "++", "app": "append", "lt": "<"}
+
+
+def m_val(v):
+    if v is None:
+        return "N"
+    if isinstance(v, int):
+        return f"I{v}"
+    return f"L{len(v)} " + " ".join(m_val(x) for x in v) if v else "L0"
+
+
+def s_val(v):
+    if v is None:
+        return "null"
+    if isinstance(v, int):
+        return str(v) if v >= 0 else f"(0-{-v})"
+    return "[" + ",".join(s_val(x) for x in v) + "]"
+
+
+def c_val(v):
+    if v is None:
+        return "N"
+    if isinstance(v, int):
+        return f"I{v}"
+    return "L[" + ",".join(c_val(x) for x in v) + "]"
+
+
+def m_expr(e):
+    k = e[0]
+    if k == "c":
+        return "c " + m_val(e[1])
+    if k == "v":
+        return f"v {e[1]}"
+    if k == "b":
+        return f"b {e[1]} {m_expr(e[2])} {m_expr(e[3])}"
+    return f"i {m_expr(e[1])} {m_expr(e[2])}"
+
+
+def s_expr(e):
+    k = e[0]
+    if k == "c":
+        return s_val(e[1])
+    if k == "v":
+        return f"x{e[1]}"
+    if k == "b":
+        return f"({s_expr(e[2])} {OPSYM[e[1]]} {s_expr(e[3])})"
+    return f"({s_expr(e[1])})[{s_expr(e[2])}]"
+
+
+def m_stmt(t):
+    k = t[0]
+    if k == "skip":
+        return "skip"
+    if k == "expr":
+        return "expr " + m_expr(t[1])
+    if k == "asg":
+        return f"asg {t[1]} {len(t[2])} " + "".join(m_expr(e) + " " for e in t[2]) + m_expr(t[3])
+    if k == "op":
+        return f"op {t[1]} {len(t[2])} " + "".join(m_expr(e) + " " for e in t[2]) + t[3] + " " + m_expr(t[4])
+    if k == "seq":
+        return f"seq {m_stmt(t[1])} {m_stmt(t[2])}"
+    if k == "if":
+        return f"if {m_expr(t[1])} {m_stmt(t[2])} {m_stmt(t[3])}"
+    if k == "while":
+        return f"while {m_expr(t[1])} {m_stmt(t[2])}"
+    if k == "try":
+        return f"try {m_stmt(t[1])} {t[2]} {m_stmt(t[3])}"
+    if k == "throw":
+        return "throw " + m_expr(t[1])
+    if k == "break":
+        return f"break {t[1]}"
+    if k == "cont":
+        return f"cont {t[1]}"
+    if k == "ret":
+        return "ret " + m_expr(t[1])
+    raise ValueError(k)
+
+
+def s_stmt(t):
+    k = t[0]
+    if k == "skip":
+        return "null"
+    if k == "expr":
+        return s_expr(t[1])
+    if k == "asg":
+        return f"x{t[1]}" + "".join(f"[{s_expr(e)}]" for e in t[2]) + " = " + s_expr(t[3])
+    if k == "op":
+        return f"x{t[1]}" + "".join(f"[{s_expr(e)}]" for e in t[2]) + f" {OPSYM[t[3]]}= " + s_expr(t[4])
+    if k == "seq":
+        return f"({s_stmt(t[1])}; {s_stmt(t[2])})"
+    if k == "if":
+        return f"if ({s_expr(t[1])}) ({s_stmt(t[2])}) else ({s_stmt(t[3])})"
+    if k == "while":
+        return f"while ({s_expr(t[1])}) ({s_stmt(t[2])})"
+    if k == "try":
+        return f"try ({s_stmt(t[1])}) catch x{t[2]} -> ({s_stmt(t[3])})"
+    if k == "throw":
+        return f"throw ({s_expr(t[1])})"
+    if k == "break":
+        return "break"
+    if k == "cont":
+        return "continue"
+    if k == "ret":
+        return f"return ({s_expr(t[1])})"
+    raise ValueError(k)
+
+
+def stmt_names(t):
+    k = t[0]
+    if k in ("asg", "op"):
+        return {t[1]}
+    if k in ("seq",):
+        return stmt_names(t[1]) | stmt_names(t[2])
+    if k == "if":
+        return stmt_names(t[2]) | stmt_names(t[3])
+    if k == "while":
+        return stmt_names(t[2])
+    if k == "try":
+        return {t[2]} | stmt_names(t[1]) | stmt_names(t[3])
+    return set()
+
+
+class Gen:
+    def __init__(self, rng):
+        self.r = rng
+
+    def int_expr(self, d=2):
+        r = self.r
+        c = r.random()
+        if d == 0 or c < 0.35:
+            return r.choice([("c", r.choice([0, 1, 2, -1, 7])), ("v", 0), ("v", 1), ("v", 11)])
+        if c < 0.65:
+            return ("b", r.choice(["add", "sub", "mul"]), self.int_expr(d - 1), self.int_expr(d - 1))
+        if c < 0.8:
+            return ("i", ("v", 2), ("c", r.choice([0, 1, 2, -1, -3])))
+        if c < 0.9:
+            return ("i", ("i", ("v", 3), ("c", 0)), ("c", r.choice([0, 1, -1])))
+        return ("b", "fdiv", self.int_expr(d - 1), ("c", r.choice([1, 2, -2, 3])))
+
+    def bad_expr(self):
+        r = self.r
+        return r.choice([
+            ("i", ("v", 2), ("c", r.choice([3, 9, -4, -9]))),          # index out of range
+            ("i", ("v", 2), ("c", None)), ("i", ("v", 2), ("c", [0])),   # index of the wrong kind
+            ("i", ("v", 0), ("c", 0)), ("i", ("v", 4), ("c", 0)),       # indexing a non-sequence
+            ("b", "fdiv", self.int_expr(1), ("c", 0)),                  # zero divisor
+            ("b", "fdiv", ("v", 0), ("b", "sub", ("v", 0), ("v", 0))),
+            ("b", r.choice(["add", "sub", "mul", "fdiv"]), ("v", 0), ("c", None)),   # wrong kinds
+            ("b", "add", ("v", 4), ("v", 1)), ("b", "lt", ("v", 0), ("c", None)),
+            ("b", "cat", ("v", 2), ("c", 3)), ("b", "cat", ("c", None), ("v", 2)), ("b", "app", ("v", 0), ("c", 1)),
+            ("v", 5), ("b", "add", ("v", 5), ("c", 1)),                 # undeclared variable
+            ("i", ("i", ("v", 3), ("c", 1)), ("c", 1)),                 # nested index out of range
+        ])
+
+    def good_simple(self, inner):
+        r = self.r
+        tgt = [0, 1, 11]
+        return r.choice([
+            ("asg", r.choice(tgt), [], self.int_expr()),
+            ("asg", 2, [("c", r.choice([0, 1, 2, -1]))], self.int_expr()),
+            ("asg", 3, [("c", 0), ("c", r.choice([0, 1]))], self.int_expr(1)),
+            ("asg", 4, [], ("c", r.choice([None, 4, [1]]))),
+            ("op", r.choice(tgt), [], r.choice(["add", "sub", "mul"]), self.int_expr(1)),
+            ("op", 2, [("c", r.choice([0, 1, -1]))], r.choice(["add", "mul"]), self.int_expr(1)),
+            ("op", 2, [], "app", self.int_expr(1)),
+            ("op", 2, [], "cat", ("c", [7, 8])),
+            ("op", 3, [("c", 1)], "app", ("c", 4)),
+            ("expr", self.int_expr()),
+        ])
+
+    def bad_simple(self):
+        r = self.r
+        e = self.int_expr(1)
+        return r.choice([
+            ("asg", r.choice([0, 1, 4]), [], self.bad_expr()),
+            ("expr", self.bad_expr()),
+            ("asg", 2, [("c", r.choice([3, 9, -4]))], e),               # index out of range on write
+            ("asg", 2, [("c", None)], e),
+            ("asg", 0, [("c", 0)], e), ("asg", 4, [("c", 0)], e),        # writing into a non-sequence
+            ("asg", 3, [("c", 0), ("c", 5)], e), ("asg", 3, [("c", 0), ("c", 0), ("c", 0)], e),
+            ("asg", 2, [self.bad_expr()], e),                             # failing path expression
+            ("asg", 5, [], e),                                            # undeclared target
+            ("op", r.choice([0, 1]), [], "fdiv", ("c", 0)),              # failing op-assigns: the slot is left null
+            ("op", r.choice([0, 1]), [], r.choice(["add", "mul", "sub"]), ("c", None)),
+            ("op", 0, [], "cat", ("c", [1])), ("op", 2, [], "cat", ("c", 5)), ("op", 0, [], "app", ("c", 1)),
+            ("op", 2, [("c", 1)], "fdiv", ("c", 0)), ("op", 2, [("c", 0)], "add", ("c", None)),
+            ("op", 3, [("c", 1), ("c", 0)], "fdiv", ("c", 0)), ("op", 3, [("c", 0)], "add", ("c", 1)),
+            ("op", 2, [("c", 7)], "add", ("c", 1)),                       # fails before drop_lhs: nothing changes
+            ("op", 4, [], "add", ("c", 1)), ("op", 5, [], "add", ("c", 1)),
+            ("op", 0, [], "add", self.bad_expr()),                        # failing right-hand side: nothing changes
+            ("op", 0, [("c", 0)], "add", ("c", 1)),
+            ("throw", r.choice([("c", 4), ("c", [1, 2]), ("c", None), ("v", 2), self.int_expr(1)])),
+        ])
+
+    def loop(self, d, lvl):
+        r = self.r
+        cnt = 7 if lvl == 0 else 10
+        k = r.choice([1, 2, 3])
+        body = self.block(d - 1, lvl + 1, True)
+        return ("seq", ("asg", cnt, [], ("c", 0)),
+                ("while", ("b", "lt", ("v", cnt), ("c", k)), ("seq", ("op", cnt, [], "add", ("c", 1)), body)))
+
+    def handler(self, d, lvl, inloop):
+        r = self.r
+        c = r.random()
+        if c < 0.3:
+            return ("skip",)
+        if c < 0.6:
+            return ("asg", 1, [], ("c", 42))
+        if c < 0.75:
+            return ("asg", 4, [], ("v", r.choice([8, 9])))      # keep the caught value (whichever the catch variable is)
+        if c < 0.85:
+            return self.bad_simple()                            # a catch clause that fails itself
+        return self.block(d - 1, lvl, inloop)
+
+    def stmt(self, d, lvl, inloop):
+        r = self.r
+        c = r.random()
+        if d <= 0 or c < 0.3:
+            return self.good_simple(inloop)
+        if c < 0.5:
+            return self.bad_simple()
+        if c < 0.6:
+            return ("if", r.choice([self.int_expr(1), ("b", "lt", self.int_expr(1), self.int_expr(1)), ("v", 4), ("v", 2)]),
+                    self.stmt(d - 1, lvl, inloop), self.stmt(d - 1, lvl, inloop))
+        if c < 0.72 and lvl < 2:
+            return self.loop(d, lvl)
+        if c < 0.87:
+            cv = r.choice([8, 9])
+            return ("try", self.block(d - 1, lvl, inloop), cv, self.handler(d, lvl, inloop))
+        if c < 0.93 and inloop:
+            return r.choice([("break", 0), ("cont", 0)])
+        if c < 0.96:
+            return ("ret", self.int_expr(1))
+        return self.good_simple(inloop)
+
+    def block(self, d, lvl, inloop):
+        n = self.r.choice([1, 1, 2, 2, 3])
+        t = self.stmt(d, lvl, inloop)
+        for _ in range(n - 1):
+            t = ("seq", t, self.stmt(d, lvl, inloop))
+        return t
+
+    def program(self):
+        r = self.r
+        c = r.random()
+        nxt = ("asg", MARK, [], ("c", 77))
+        if c < 0.35:      # one injected fault, caught; then the next statement
+            body = self.bad_simple() if r.random() < 0.6 else ("seq", self.good_simple(False), self.bad_simple())
+            h = r.choice([("skip",), ("asg", 1, [], ("c", 42)), ("asg", 4, [], ("v", 8))])
+            return "caught", ("seq", ("try", body, 8, h), nxt)
+        if c < 0.6:       # a block with faults, caught
+            return "caught-block", ("seq", ("try", self.block(3, 0, False), r.choice([8, 9]), self.handler(2, 0, False)), nxt)
+        if c < 0.8:       # uncaught
+            return "uncaught", ("seq", self.block(2, 0, False), nxt)
+        return "free", self.block(3, 0, False)
+
+
+# statements outside the model's vocabulary: (source, variables it names). Only the property-level checks apply.
+RAW_FAULTS = [
+    ("x0, x1 = [1]", {0, 1}), ("x0, x1 = [1,2,3]", {0, 1}), ("x0, x1 = 5", {0, 1}), ("x0, x1 = null", {0, 1}),
+    ("x0, ...x1, x11 = [1]", {0, 1, 11}), ("x0, ...x1 = []", {0, 1}), ("[x0, x1] = [1]", {0, 1}), ("x0, (x1, x11) = [1, [2]]", {0, 1, 11}),
+    ("x0, x1 = x2", {0, 1}), ("x0, x1 := 1, 2, 3", {0, 1}),
+    ("x2[1:2] = 5", {2}), ("x2[1:2] += 1", {2}), ("x2[0:9][0] = 1", {2}), ("every x2[0:2] //= 0", {2}), ("every x0 = 1", {0}),
+    ("pop x4", {4}), ("pop x0", {0}), ("x0 = pop x3[1]; x0 = pop x3[1]", {0, 3}), ("remove x2[9]", {2}), ("remove x0[0]", {0}), ("remove x2", {2}),
+    ("swap x0, x2[9]", {0, 2}), ("swap x2[0], x2[9]", {2}), ("consume x5", set()), ("x0 = consume x2[9]", {0, 2}),
+    ("x0 = decompress(B[1,2,3])", {0}), ("x0 = decompress(B[])", {0}), ("x0 = int(\"zz\")", {0}), ("x0 = float(\"\")", {0}),
+    ("x0 = 1 % 0", {0}), ("x0 = 1 / 0", {0}), ("x0 = 1 // 0", {0}), ("x0 = 1 %% 0", {0}), ("x0 = (1/2) % 0", {0}), ("x0 = 0 ^ (0-1)", {0}),
+    ("x0 = gcd(0, null)", {0}), ("x0 = {1:2}[3]", {0}), ("x0 = first([])", {0}), ("x0 = last(\"\")", {0}), ("x0 = [] !! 0", {0}),
+    ("x0 = permutations([]) then list", {0}), ("x0 = cycle([]) then first", {0}), ("x0 = combinations([1,2,3], 5) then first", {0}),
+    ("x0 = window([1,2,3], 0)", {0}), ("x0 = json_decode(\"{\")", {0}), ("x0 = \"a\" + 1", {0}), ("x0 = chr(0-1)", {0}), ("x0 = ord(\"\")", {0}),
+    ("x0 = max([])", {0}), ("x0 = fold([], +)", {0}), ("x0 = (\\a, b -> a)(1)", {0}), ("x0 = (\\a -> a)(1, 2)", {0}), ("x0 = (\\...a, ...b -> a)(1)", {0}),
+    ("x0 = (\\a: int -> a)(\"s\")", {0}), ("assert(0)", set()), ("x0 = switch (5) case 6 -> 1", {0}), ("for (i <- 5) x0 = i", {0}),
+    ("for (i <- [1,2,3]) (x0 = i; if (i == 2) throw \"mid\")", {0}), ("x0 = [1,2,3] map (\\x -> x // (x - 2))", {0}),
+    ("x0 = [1,2,3] fold (\\a, b -> throw b)", {0}), ("x0 = sort([1, \"a\", null])", {0}), ("x0 = [3,1,2] sort (\\a, b -> throw 1)", {0}),
+    ("x0 = str_radix(5, 1)", {0}), ("x0 = int_radix(\"zz\", 2)", {0}), ("x0 = \"abc\"[1:2][5]", {0}), ("x0 = B[1,2][7]", {0}), ("x0 = V(1,2)[7]", {0}),
+    ("x2[0] = x2[1] = x2[9]", {2}), ("x0 = hex_decode(\"zz\")", {0}), ("x0 = base64_decode(\"!\")", {0}), ("x0 = utf8_decode(B[255])", {0}),
+    ("x0 = (1 to 3)[9]", {0}), ("x0 = iota(0)[1/2]", {0}), ("x0 = [1,2,3] zip 5", {0}), ("x0 = transpose([[1],[1,2]])", {0}), ("x0 = {1:2} |.. 3", {0}),
+    ("x0 = [1] .* (0-1)", {0}), ("x0 = \"ab\" $* null", {0}), ("x0 = 1 << (0-1)", {0}), ("x0 = factorize(0)", {0}), ("x0 = [1,2] ** null", {0}),
+    ("x0 = x0(1)", {0}), ("x0 = null(1)", {0}), ("x0 = (1 < 2 < null)", {0}), ("x0 = 1 max null", {0}), ("x2 append= 1; x2[9] = 0", {2}),
+    ("struct C14P (c14f); x0 = C14P(1, 2)", {0}), ("struct C14Q (c14g); x0 = c14g(5)", {0}), ("x0 = literally", {0}),
+    ("x0 = \"\\u{110000000}\"", {0}), ("x0 = 1 +", {0}),
+]
+
+
+def canon_strings_to_E(s):
+    return re.sub(r'S"(?:[^"\\]|\\.)*"', "E", s)
+
+
+def impl_view(results, nprog):
+    """(status text, {var: canonical}) from the harness result of decls + program + dumps"""
+    r = results[nprog]
+    st = r.get("status")
+    if st == "ok":
+        status = "done"
+    elif st == "err":
+        status = "throw " + canon_strings_to_E(r.get("thrown", "?"))
+    elif st == "sig":
+        sg = r.get("sig")
+        status = {"break": f"break {r.get('n')}", "continue": f"cont {r.get('n')}"}.get(sg, "ret " + canon_strings_to_E(str(r.get("val"))))
+    else:
+        status = st          # panic / parse / hang / abort
+    return status, r
+
+
+def run_inject(ctx, runner):
+    g = Gen(ctx.rng)
+    n = ctx.n(2500, 30000)
+    progs = [g.program() for _ in range(n)]
+    declared = sorted(INIT)
+    decls = [f"x{k} := {s_val(INIT[k])}" for k in declared]
+    dumps = [f"x{k}" for k in declared]
+    srcs = [decls + [s_stmt(t)] + dumps for _, t in progs]
+    for src, nm in RAW_FAULTS:
+        srcs.append(decls + [f"try ({src}) catch x8 -> (x1 = 42)", f"x{MARK} = 77"] + dumps)
+    res = common.run_prog(srcs, timeout=20.0, fuel=200_000)
+    mlines = ["400 %d %s %s" % (NVARS, " ".join(m_val(INIT[k]) if k in INIT else "U" for k in range(NVARS)), m_stmt(t)) for _, t in progs]
+    mres = common.run_model(runner, mlines) if runner else [None] * len(progs)
+    nd = len(decls)
+    stats = {"programs": len(progs), "raw_fault_programs": len(RAW_FAULTS), "model_compared": 0, "model_fuel": 0, "by_shape": {}, "impl_status": {},
+             "caught_and_continued": 0, "raised_to_top": 0, "failed_opassign_left_null": 0, "raw_raised": 0, "statements": 0}
+    bad = []
+
+    def final_vars(rr):
+        out = {}
+        for j, k in enumerate(declared):
+            d = rr[nd + 1 + j] if nd + 1 + j < len(rr) else {}
+            out[k] = canon_strings_to_E(d.get("val", "?" + str(d.get("status"))))
+        return out
+
+    for i, ((shape, t), r) in enumerate(zip(progs, res)):
+        rr = r.get("results") or [r]
+        stats["statements"] += len(rr)
+        stats["by_shape"][shape] = stats["by_shape"].get(shape, 0) + 1
+        if len(rr) <= nd:
+            bad.append(("property", dict(program=s_stmt(t), model=m_stmt(t), what="the harness died while declaring variables", impl=str(r)[:300])))
+            continue
+        status, pr = impl_view(rr, nd)
+        stats["impl_status"][status.split(" ")[0]] = stats["impl_status"].get(status.split(" ")[0], 0) + 1
+        rec = dict(shape=shape, program=s_stmt(t), model_program=m_stmt(t), impl_status=status, impl_msg=pr.get("msg"))
+        if status in ("panic", "hang", "abort") or r.get("status") in ("hang", "abort"):
+            rec["what"] = "the implementation panicked / hung / aborted on a terminating program"
+            bad.append(("property", rec))
+            continue
+        if status == "parse":
+            rec["what"] = "the rendered program does not parse (driver renderer and implementation disagree)"
+            bad.append(("correspondence", rec))
+            continue
+        fv = final_vars(rr)
+        rec["impl_vars"] = fv
+        nm = stmt_names(t)
+        # property-level checks (independent of the Coq model)
+        untouched = [k for k in declared if k not in nm and fv[k] != c_val(INIT[k])]
+        if untouched:
+            rec["what"] = f"variables not named by the statement changed: {['x%d' % k for k in untouched]}"
+            bad.append(("property", rec))
+            continue
+        if shape == "caught" and t[1][3][0] in ("skip", "asg"):
+            if status != "done" or fv[MARK] != "I77":
+                rec["what"] = "a caught fault (quiet catch clause) did not let the next statement run"
+                bad.append(("property", rec))
+                continue
+        if status == "done" and MARK in nm and shape != "free" and fv[MARK] != "I77":
+            rec["what"] = "the program completed but the statement after the try did not run"
+            bad.append(("property", rec))
+            continue
+        if shape.startswith("caught") and status == "done":
+            stats["caught_and_continued"] += 1
+        if status.startswith("throw"):
+            stats["raised_to_top"] += 1
+        if any(fv[k] == "N" and INIT[k] is not None for k in (0, 1)):
+            stats["failed_opassign_left_null"] += 1
+        # model comparison
+        m = mres[i]
+        if m is None:
+            continue
+        if m == "fuel":
+            stats["model_fuel"] += 1
+            continue
+        stats["model_compared"] += 1
+        if " | " not in m:
+            rec["what"] = "model runner: " + m
+            rec["coq_model"] = m
+            bad.append(("correspondence", rec))
+            continue
+        mstatus, mvars = m.split(" | ")
+        mv = mvars.split(" ")
+        mfinal = {k: mv[k] for k in declared}
+        rec["coq_model"] = m
+        if mstatus != status or any(mfinal[k] != fv[k] for k in declared):
+            rec["what"] = ("correspondence Lang/Contain.v <-> implementation no longer checks on this program; the property-level checks "
+                           "(no crash, untouched variables intact, next statement runs) pass on the implementation's answer")
+            bad.append(("correspondence", rec))
+    # raw faults: property-level checks only
+    for (src, nm), r in zip(RAW_FAULTS, res[len(progs):]):
+        rr = r.get("results") or [r]
+        stats["statements"] += len(rr)
+        rec = dict(shape="raw", program=f"try ({src}) catch x8 -> (x1 = 42); x{MARK} = 77", impl=[(x.get("status"), x.get("val") or x.get("msg")) for x in rr[nd:nd + 2]])
+        if r.get("status") in ("hang", "abort") or len(rr) < nd + 2 + len(declared) or any(x.get("status") in ("panic", "hang", "abort") for x in rr):
+            rec["what"] = "the implementation panicked / hung / aborted on a faulty statement wrapped in try/catch"
+            bad.append(("property", rec))
+            continue
+        st = rr[nd].get("status")
+        if st == "parse":
+            continue       # a syntax error is reported before anything runs: nothing to contain
+        fv = {k: canon_strings_to_E(rr[nd + 2 + j].get("val", "?")) for j, k in enumerate(declared)}
+        rec["impl_vars"] = fv
+        if st != "ok":
+            rec["what"] = "an error escaped try ... catch x8 -> ..."
+            bad.append(("property", rec))
+            continue
+        if fv[1] == "I42":
+            stats["raw_raised"] += 1
+        if fv[MARK] != "I77":
+            rec["what"] = "the statement after the caught fault did not run"
+            bad.append(("property", rec))
+            continue
+        allowed = set(nm) | {1, MARK}
+        untouched = [k for k in declared if k not in allowed and fv[k] != c_val(INIT[k])]
+        if untouched:
+            rec["what"] = f"variables not named by the failing statement changed: {['x%d' % k for k in untouched]}"
+            bad.append(("property", rec))
+    samples = [dict(program=s_stmt(t), model=mres[i], shape=sh) for i, (sh, t) in list(enumerate(progs))[:: max(1, len(progs) // 8)]][:8]
+    return stats, bad, samples
+
+
+def report_inject(ctx, bad):
+    seen = set()
+    for kind, rec in bad:
+        key = (kind, rec.get("what", "")[:50], rec.get("shape"))
+        if key in seen:
+            continue
+        seen.add(key)
+        ctx.violation(kind, rec, found=(kind == "property"))
+
+
 def sweep_coverage(ctx, S):
     sw = S["sw"]
     per_fn_ok = sum(1 for fn in S["fns"] if sw.per_fn.get(fn, {}).get("ok", 0) > 0)
@@ -463,18 +913,44 @@ def sweep_coverage(ctx, S):
 
 
 def run(ctx):
-    common.standard_prelude(ctx, model=False)
+    runner = common.standard_prelude(ctx)
+    # fault injection first (cheap), then the sweep
+    stats, bad, samples = run_inject(ctx, runner)
+    report_inject(ctx, bad)
     S = run_sweep(ctx)
     report_sweep(ctx, S)
     sweep_coverage(ctx, S)
-    ctx.coverage["evaluations"] = S["sw"].calls
-    ctx.coverage["distinct_nontrivial"] = ctx.coverage["sweep_not_argument_count_errors"]
-    ctx.coverage["rule"] = "one evaluation = one application of a global function to an argument tuple; non-trivial = the call got past the argument-count check"
+    ctx.coverage["inject"] = stats
+    ctx.coverage["inject_disagreements"] = len(bad)
+    ctx.coverage["evaluations"] = S["sw"].calls + stats["programs"] + stats["raw_fault_programs"]
+    ctx.coverage["distinct_nontrivial"] = ctx.coverage["sweep_not_argument_count_errors"] + stats["raised_to_top"] + stats["caught_and_continued"]
+    ctx.coverage["rule"] = ("one evaluation = one application of a global function to an argument tuple (sweep) or one fault-injected program; "
+                            "non-trivial = the call got past the argument-count check / the program raised to the top or had a fault caught and continued")
+    sw = S["sw"]
+    ctx.coverage["samples"] = samples + [dict(call=render_call(f["fn"], f["t"]), status=f["status"], cls=f["class"]) for f in (S["known"][:4] + S["tolerated"][:2])]
+    ctx.assumptions += ["values of the model are null / integers / nested lists; error messages are one opaque value",
+                        "variables are declared up front; the only scoped variable is the catch variable",
+                        "panic-freedom of builtin bodies is a sweep result over the pool, not a theorem (hypothesis op_no_panic of C14_program_no_panic)",
+                        "a call that does not return within the CPU limit while an argument is an infinite stream is non-terminating input, not a hang"]
     return common.conclude(ctx)
 
 
 def replay(ctx, rep):
-    common.standard_prelude(ctx, model=False)
+    runner = common.standard_prelude(ctx)
+    if "program" in rep:
+        declared = sorted(INIT)
+        decls = [f"x{k} := {s_val(INIT[k])}" for k in declared]
+        prog = rep["program"]
+        stmts = decls + ([prog] if rep.get("shape") != "raw" else prog.split("; x%d = 77" % MARK)[:1] + [f"x{MARK} = 77"]) + [f"x{k}" for k in declared]
+        r = common.run_prog([stmts], timeout=20.0, fuel=200_000)[0]
+        rr = r.get("results") or [r]
+        out = {"program": prog, "implementation": [(x.get("status"), x.get("val") or x.get("msg")) for x in rr[len(decls):]]}
+        if rep.get("model_program") and runner:
+            line = "400 %d %s %s" % (NVARS, " ".join(m_val(INIT[k]) if k in INIT else "U" for k in range(NVARS)), rep["model_program"])
+            out["coq_model"] = common.run_model(runner, [line])[0]
+        print(json.dumps(out))
+        crashed = any(x.get("status") in ("panic", "hang", "abort") for x in rr) or r.get("status") in ("hang", "abort")
+        return 1 if crashed or rep.get("failing_input_found") else 0
     if "tuple" in rep and "fn" in rep:
         sw = Sweep(ctx)
         sw.run([sw.case(rep["fn"], tuples=[rep["tuple"]], limit_ms=20000)], workers=1)
